@@ -362,7 +362,12 @@ fn scenario(seed: u64, k: u64, out: &Out) {
         let regs = pick_scripts(&mut rng, &w.chains[0], 2, len);
         set_scripts(&w, &regs, None);
     }
-    let mode = *rng.pick(&["honest", "honest", "invalid-answer", "mute-then-timeout", "disconnect-before-answer", "new-tip-only-answer", "late-answer", "late-answer"]);
+    let mode = *rng.pick(&["honest", "honest", "invalid-answer", "mute-then-timeout", "disconnect-before-answer", "new-tip-only-answer", "late-answer", "late-answer", "session-closing"]);
+    // session-closing (fault injection at the network boundary): the session of the serving peer starts closing - every send to it fails
+    // with an error and is lost - and the disconnected callback arrives 1..4 rounds later; the fetches it was (or seemed to be) given
+    // must become eligible for another peer / a new session
+    let closing_at = rng.range(0, 2);
+    let closing_len = rng.range(1, 4);
     let desc = json!({"seed": seed, "scenario": k, "len": len, "peers": npeers, "mode": mode, "scripts": with_scripts, "last_n": ccfg.last_n, "fast_timers": w.timer_fast});
     let mut mon = Mon { out, reported_missing: HashSet::new(), bad_peer: None, bad_mode: 9, rng: rng.fork(3), invalid_answers: 0, late: None, held: vec![] };
     w.connect_all();
@@ -421,6 +426,15 @@ fn scenario(seed: u64, k: u64, out: &Out) {
         }
         if mode == "disconnect-before-answer" && round == 1 && w.peers.len() >= 2 {
             w.disconnect(0);
+        }
+        if mode == "session-closing" {
+            if round == closing_at {
+                w.start_closing(0);
+            }
+            if round == closing_at + closing_len {
+                w.disconnect(0);
+                out.count("sends_that_failed_on_a_closing_session", w.c().log.failed_sends());
+            }
         }
         // after the bad behaviour the peer is honest again (it may reconnect)
         if round == 3 && (mode == "invalid-answer" || mode == "new-tip-only-answer") {
